@@ -1160,8 +1160,12 @@ class SymArray(numpy.ndarray):
     def __array_ufunc__(self, ufunc, method, *inputs, **kw):
         ins = [numpy.asarray(x).view(numpy.ndarray) if isinstance(x, SymArray) else x for x in inputs]
         if method != '__call__':
-            if method == 'reduce':
-                return _ufunc(ufunc, method, *ins, **kw)
+            if method in ('reduce', 'accumulate'):
+                # numpy's own object-dtype loops use the Python operators of the elements (axis / keepdims honoured)
+                plain = [numpy.asarray(x).view(numpy.ndarray) if isinstance(x, numpy.ndarray) else x for x in inputs]
+                kw.pop('out', None)
+                r = getattr(ufunc, method)(*plain, **kw)
+                return r.view(SymArray) if isinstance(r, numpy.ndarray) and r.dtype == object and r.ndim > 0 else r
             return NotImplemented
         out = kw.pop('out', None)
         if kw.get('where', True) is not True:
